@@ -583,14 +583,25 @@ def conc_worker(args):
         except subprocess.TimeoutExpired:
             res["oracle_fail"].append({"case": 0, "verdict": "hang", "ops": [f"mmharness stall {seed} {ncases} did not finish"], "recorded": True})
             return res
+        def bad_rounds(text):
+            return [l for l in text.splitlines() if l.startswith("stall ") and not l.endswith("bad=0")]
+        if bad_rounds(out):
+            # a verdict of "still blocked" needs two watchdog expiries: the same rounds are run again
+            try:
+                rc2, out2, err2 = run(limited([HBIN, "stall", str(seed), str(ncases)]), timeout=300)
+            except subprocess.TimeoutExpired:
+                out2 = out
+            if not bad_rounds(out2):
+                res["note"] = "a blocked round of the first run finished in the second run (not counted): " + bad_rounds(out)[0]
+                out = out2
         for l in out.splitlines():
             if l.startswith("stall "):
                 f = dict(x.split("=") for x in l.split()[1:] if "=" in x)
                 res["ops"] += int(f["stalled_at"])
                 if f["parked"] == "true" and f["finished_before_release"] == "0":
                     res["nontrivial"] += 1
-                res["hist"]["stall:parked" if f["parked"] == "true" else "stall:not-parked"] = \
-                    res["hist"].get("stall:parked" if f["parked"] == "true" else "stall:not-parked", 0) + 1
+                hk = "stall:parked" if f["parked"] == "true" else "stall:not-parked"
+                res["hist"][hk] = res["hist"].get(hk, 0) + 1
                 if f["bad"] != "0":
                     res["oracle_fail"].append({"case": int(f["round"]), "verdict": "hang", "recorded": True,
                                                "ops": [f"# re-run: harness/target/debug/mmharness stall {seed} {ncases}"]
